@@ -38,16 +38,16 @@ CHECK_DEADLOCK FALSE
 """
 
 
-def judge_graphs(ctx, graphs, caps, tag, cov):
-    """graphs: list of (graph, origin). TLC evaluates TreeOK on each; returns indices that fail."""
+def _judge_chunk(ctx, graphs, idxs, caps, tag):
+    """One TLC process walks the graphs idxs in order; after a failing graph it is restarted behind it."""
     bad = []
-    todo = list(range(len(graphs)))
+    todo = list(idxs)
     rounds = 0
     while todo and rounds < 6:
         rounds += 1
-        nd = "".join(json.dumps(graphs[i][0]) + "\n" for i in todo)
+        nd = "".join(graphs[i] + "\n" for i in todo)
         res = vlib.run_tlc(ctx, "TreeTrace", "TreeTrace.cfg", cfg_text=TT_CFG % tuple(caps), workers=1, timeout=1800,
-                           tag="%s-%d" % (tag, rounds), files={"graphs.ndjson": nd}, xss="512m")
+                           tag="%s-%d" % (tag, rounds), files={"graphs.ndjson": nd}, xss="512m", heap="3g")
         if res.status == "ok":
             break
         if res.violated != "AllOK":
@@ -61,8 +61,29 @@ def judge_graphs(ctx, graphs, caps, tag, cov):
             raise vlib.Undecided("TreeTrace: violated but no position\n" + "\n".join(res.out[-30:]))
         bad.append(todo[pos - 1])
         todo = todo[pos:]
-    cov["graphs_judged_by_tlc"] = cov.get("graphs_judged_by_tlc", 0) + len(graphs)
     return bad
+
+
+def judge_graphs(ctx, graphs, caps, tag, cov):
+    """graphs: list of (graph, origin, levels). TLC evaluates TreeOK on each distinct graph (many paths end in the same
+    pages), several TLC processes side by side; returns the indices (into graphs) of those that fail."""
+    from concurrent.futures import ThreadPoolExecutor
+    texts, first, members = [], {}, {}
+    for i, g in enumerate(graphs):
+        t = json.dumps(g[0], sort_keys=True)
+        if t not in first:
+            first[t] = len(texts)
+            texts.append(t)
+        members.setdefault(first[t], []).append(i)
+    k = max(1, min(8, vlib.NCPU // 2, (len(texts) + 1999) // 2000))
+    size = (len(texts) + k - 1) // k
+    chunks = [list(range(j, min(len(texts), j + size))) for j in range(0, len(texts), size)]
+    with ThreadPoolExecutor(max_workers=k) as ex:
+        res = list(ex.map(lambda a: _judge_chunk(ctx, texts, a[1], caps, "%s-%d" % (tag, a[0])), list(enumerate(chunks))))
+    bad = [i for r in res for d in r for i in members[d]]
+    cov["graphs_judged_by_tlc"] = cov.get("graphs_judged_by_tlc", 0) + len(graphs)
+    cov["distinct_graphs_judged_by_tlc"] = cov.get("distinct_graphs_judged_by_tlc", 0) + len(texts)
+    return sorted(bad)
 
 
 def run(ctx):
